@@ -17,6 +17,7 @@ import Mathlib.Analysis.Calculus.Deriv.Comp
 import Mathlib.Analysis.Calculus.Deriv.Add
 import Mathlib.Analysis.Calculus.Deriv.Mul
 import Mathlib.Analysis.Calculus.MeanValue
+import Mathlib.Analysis.Calculus.Deriv.Prod
 import Mathlib.Analysis.SpecialFunctions.Trigonometric.Deriv
 import Mathlib.Analysis.SpecialFunctions.Trigonometric.Bounds
 /-!
@@ -546,6 +547,44 @@ theorem euler_convergence_rate (f : E → ℝ → E) (x x2 : ℝ → E) (y : ℕ
         apply mul_le_mul_of_nonneg_left (by linarith)
         positivity
     _ = C2 / L * (Real.exp (L * T) - 1) * (T / M) := by ring
+
+/-- **`ocp.integral` converges too**: the integral is the extra state of the augmented system `(x, q)' = (f(x,t), e(x,t))`, which is how
+`intg='expl_euler'` computes it (C05.euler_augmented); with `f`, `e` `L`-Lipschitz in the state and `‖x''‖, |q''| ≤ C₂` the Euler value
+`r_n` of the integral satisfies `|q(t0 + n·h) − r_n| ≤ (C₂/L)·h·((1 + hL)^n − 1)` -/
+theorem euler_integral_convergence (f : E → ℝ → E) (e : E → ℝ → ℝ) (x x2 : ℝ → E) (q q2 : ℝ → ℝ) (y : ℕ → E) (r : ℕ → ℝ)
+    (t0 h L C2 : ℝ) (hh : 0 < h) (hL : 0 < L)
+    (hsol : ∀ s, HasDerivAt x (f (x s) s) s) (hq : ∀ s, HasDerivAt q (e (x s) s) s)
+    (hx2 : ∀ s, HasDerivAt (fun s => f (x s) s) (x2 s) s) (hq2 : ∀ s, HasDerivAt (fun s => e (x s) s) (q2 s) s)
+    (hbx : ∀ s, ‖x2 s‖ ≤ C2) (hbq : ∀ s, |q2 s| ≤ C2)
+    (hlipf : ∀ u v s, ‖f u s - f v s‖ ≤ L * ‖u - v‖) (hlipe : ∀ u v s, |e u s - e v s| ≤ L * ‖u - v‖)
+    (hy0 : y 0 = x t0) (hr0 : r 0 = q t0)
+    (hy : ∀ n, y (n + 1) = y n + h • f (y n) (t0 + n * h)) (hr : ∀ n, r (n + 1) = r n + h * e (y n) (t0 + n * h)) :
+    ∀ n : ℕ, |q (t0 + n * h) - r n| ≤ C2 / L * h * ((1 + h * L) ^ n - 1) := by
+  intro n
+  have main := euler_convergence_vec (E := E × ℝ) (fun z s => (f z.1 s, e z.1 s)) (fun s => (x s, q s)) (fun s => (x2 s, q2 s))
+    (fun n => (y n, r n)) t0 h L C2 hh hL
+    (fun s => (hsol s).prodMk (hq s))
+    (fun s => (hx2 s).prodMk (hq2 s))
+    (fun s => by
+      rw [Prod.norm_def]
+      exact max_le (hbx s) (by simpa using hbq s))
+    (fun u v s => by
+      rw [Prod.norm_def]
+      have h1 : ‖u.1 - v.1‖ ≤ ‖u - v‖ := by
+        rw [Prod.norm_def]; exact le_max_left _ _
+      refine max_le ?_ ?_
+      · exact le_trans (hlipf u.1 v.1 s) (mul_le_mul_of_nonneg_left h1 hL.le)
+      · simp only [Prod.snd_sub, Real.norm_eq_abs]
+        exact le_trans (hlipe u.1 v.1 s) (mul_le_mul_of_nonneg_left h1 hL.le))
+    (by simp [hy0, hr0])
+    (fun n => by
+      simp only [hy n, hr n, Prod.smul_mk, Prod.mk_add_mk, smul_eq_mul])
+    n
+  have : |q (t0 + n * h) - r n| ≤ ‖((x (t0 + n * h), q (t0 + n * h)) : E × ℝ) - (y n, r n)‖ := by
+    rw [Prod.norm_def]
+    simp only [Prod.mk_sub_mk, Real.norm_eq_abs]
+    exact le_max_right _ _
+  exact le_trans this main
 
 end vector
 
